@@ -119,14 +119,31 @@ def gen_ops(rng, kind, n, faults=True):
             ops.append([name, vs()])
     return ops
 
+class Unobservable(Exception):
+    "The read API itself raised (or did not terminate): the container is corrupt."
+
 def observe(kind, c, uni):
+    try:
+        return _observe(kind, c, uni)
+    except Exception as e:
+        raise Unobservable('%s: %s' % (type(e).__name__, e)) from None
+
+def _bounded(it, limit=64):
+    out = []
+    for x in it:
+        out.append(x)
+        if len(out) > limit:
+            raise RuntimeError('iteration does not end (more than %d items)' % limit)
+    return out
+
+def _observe(kind, c, uni):
     "Everything the property lets a user observe, through the public read API."
-    seq = list(c)
+    seq = _bounded(c)
     obs = dict(
         seq=seq,
         len=len(c),
         mem=[u in c for u in uni],
-        rev=list(reversed(c)),
+        rev=_bounded(reversed(c)),
         items=[c[i] for i in range(len(c))],
         neg=[c[-i - 1] for i in range(len(c))])
     idx = []
@@ -379,6 +396,13 @@ def fmt(kind, x):
 
 def execute(spec, log=None, stats=None):
     """Run a history. Returns None or (clause, opname, message, step)."""
+    cur = [0, 'init']
+    try:
+        return _execute(spec, log, stats, cur)
+    except Unobservable as e:
+        return ('unobservable', cur[1], 'after %s the read API raised %s' % (cur[1], e), cur[0])
+
+def _execute(spec, log, stats, cur):
     kind = spec['kind']
     uni = universe(kind)
     c = CLASSES[kind]()
@@ -390,6 +414,7 @@ def execute(spec, log=None, stats=None):
     poison = None
     for step, op in enumerate(spec['ops']):
         name = op[0]
+        cur[0], cur[1] = step, name
         if name == 'poison':
             if vetoable:
                 poison = (op[1], op[2]) if op[1] else None
